@@ -18,8 +18,6 @@ Definition Dq2 (m : fdmode) (hx hy : K) (sd : nat) (q : quad2) : quad2 :=
   | _ => mkQ2 0 0 0 (pxy q) ((1 + 1) * pyy q) (my q + sig m * (pyy q * hy))
   end.
 Definition quad_field2 (hx hy : K) (q : quad2) (nx ny : nat) : list (list K) := tab2 ny nx (fun y x => ev2q hx hy q y x).
-Definition rect2 (ny nx : nat) (c : list (list K)) : Prop :=
-  length c = ny /\ forall y, (y < ny)%nat -> length (nth y c []) = nx.
 Definition valid2 (hx hy : K) (ny nx ky kx : nat) (T : list (list K)) (q : quad2) : Prop :=
   forall y x, inm ky ny y -> inm kx nx x -> at2 T y x = ev2q hx hy q y x.
 Definition d2q2 (q : quad2) (a b : nat) : K :=
@@ -31,35 +29,6 @@ Variable K : fld.
 Hypothesis Kf : is_field K.
 Hypothesis Kc : char0 K.
 Add Field KF : Kf.
-
-Lemma Lx2 (f : list K -> list K) (c : list (list K)) (ny nx : nat) : lenpres K f -> rect2 ny nx c ->
-  rect2 ny nx (along_x2 f c) /\
-  forall y x, (y < ny)%nat -> at2 (along_x2 f c) y x = nth x (f (map (fun x' => at2 c y x') (seq 0 nx))) 0.
-Proof.
-  intros Hf [Hy Hr]. unfold along_x2. split.
-  - split; [rewrite map_length; exact Hy|]. intros y Ly'. rewrite (nth_map_in f c y [] []) by lia. rewrite Hf. apply Hr. exact Ly'.
-  - intros y x Ly'. unfold at2. rewrite (nth_map_in f c y [] []) by lia. f_equal. f_equal.
-    apply (nth_ext _ _ 0 0).
-    + rewrite map_length, seq_length. apply Hr. exact Ly'.
-    + intros i Hi. rewrite Hr in Hi by exact Ly'. rewrite (nth_map_seq (fun x' => nth x' (nth y c []) 0)) by exact Hi. reflexivity.
-Qed.
-
-Lemma Ly2 (f : list K -> list K) (c : list (list K)) (ny nx : nat) : lenpres K f -> rect2 ny nx c ->
-  (1 <= ny)%nat -> (1 <= nx)%nat ->
-  rect2 ny nx (along_y2 f c) /\
-  forall y x, (y < ny)%nat -> (x < nx)%nat -> at2 (along_y2 f c) y x = nth y (f (map (fun y' => at2 c y' x) (seq 0 ny))) 0.
-Proof.
-  intros Hf [Hy Hr] H1y H1x. assert (R0 : length (nth 0 c []) = nx) by (apply Hr; lia). split.
-  - split.
-    + unfold along_y2. rewrite map_length, seq_length, R0.
-      rewrite (nth_map_seq (fun i => f (map (fun r => nth i r 0) c))) by lia. rewrite Hf, map_length. exact Hy.
-    + intros y Ly'. apply (length_along_y2_row K f c nx y Hf R0 H1x). lia.
-  - intros y x Ly' Lx'. unfold at2. rewrite (nth_along_y2 K f c nx x y Hf R0 Lx') by lia.
-    f_equal. f_equal. unfold colx. apply (nth_ext _ _ 0 0).
-    + rewrite !map_length, seq_length. exact Hy.
-    + intros i Hi. rewrite map_length, Hy in Hi. rewrite (nth_map_in (fun r => nth x r 0) c i [] 0) by lia.
-      rewrite (nth_map_seq (fun y' => nth x (nth y' c []) 0)) by exact Hi. reflexivity.
-Qed.
 
 Lemma inm_lt2 k n i : inm k n i -> (i < n)%nat.
 Proof. unfold inm. lia. Qed.
@@ -76,7 +45,7 @@ Notation rect := (rect2 ny nx).
 Lemma Sx2 (T : list (list K)) q ky kx : rect T -> valid ky kx T q ->
   rect (along_x2 (smooth1 m) T) /\ valid ky (S kx) (along_x2 (smooth1 m) T) (addc2 q (kap m * (pxx q * (hx * hx)))).
 Proof.
-  intros B V. destruct (Lx2 (smooth1 m) T ny nx (lenpres_smooth K m) B) as [B' A]. split; [exact B'|].
+  intros B V. destruct (Lx2 K (smooth1 m) T ny nx (lenpres_smooth K m) B) as [B' A]. split; [exact B'|].
   intros y x Iy Ix. destruct (inm_S2 _ _ _ Ix) as [Ia [Ib [Ic [H1 H2]]]].
   rewrite A by (eapply inm_lt2; eassumption).
   rewrite (smooth_local K Kf Kc (pxx q) (pxy q * (zn y * hy) + mx q) (pyy q * ((zn y * hy) * (zn y * hy)) + my q * (zn y * hy) + p0 q)
@@ -87,7 +56,7 @@ Qed.
 Lemma Sy2 (T : list (list K)) q ky kx : rect T -> valid ky kx T q ->
   rect (along_y2 (smooth1 m) T) /\ valid (S ky) kx (along_y2 (smooth1 m) T) (addc2 q (kap m * (pyy q * (hy * hy)))).
 Proof.
-  intros B V. destruct (Ly2 (smooth1 m) T ny nx (lenpres_smooth K m) B Hny Hnx) as [B' A]. split; [exact B'|].
+  intros B V. destruct (Ly2 K (smooth1 m) T ny nx (lenpres_smooth K m) B Hny Hnx) as [B' A]. split; [exact B'|].
   intros y x Iy Ix. destruct (inm_S2 _ _ _ Iy) as [Ia [Ib [Ic [H1 H2]]]].
   rewrite A by (eapply inm_lt2; eassumption).
   rewrite (smooth_local K Kf Kc (pyy q) (pxy q * (zn x * hx) + my q) (pxx q * ((zn x * hx) * (zn x * hx)) + mx q * (zn x * hx) + p0 q)
@@ -98,7 +67,7 @@ Qed.
 Lemma Dx2 (T : list (list K)) q ky kx : hx <> 0 -> rect T -> valid ky kx T q ->
   rect (along_x2 (fd1 m hx) T) /\ valid ky (S kx) (along_x2 (fd1 m hx) T) (Dq2 m hx hy 0 q).
 Proof.
-  intros Hh B V. destruct (Lx2 (fd1 m hx) T ny nx (lenpres_fd K m hx) B) as [B' A]. split; [exact B'|].
+  intros Hh B V. destruct (Lx2 K (fd1 m hx) T ny nx (lenpres_fd K m hx) B) as [B' A]. split; [exact B'|].
   intros y x Iy Ix. destruct (inm_S2 _ _ _ Ix) as [Ia [Ib [Ic [H1 H2]]]].
   rewrite A by (eapply inm_lt2; eassumption).
   rewrite (diff_local K Kf Kc (pxx q) (pxy q * (zn y * hy) + mx q) (pyy q * ((zn y * hy) * (zn y * hy)) + my q * (zn y * hy) + p0 q)
@@ -109,7 +78,7 @@ Qed.
 Lemma Dy2 (T : list (list K)) q ky kx : hy <> 0 -> rect T -> valid ky kx T q ->
   rect (along_y2 (fd1 m hy) T) /\ valid (S ky) kx (along_y2 (fd1 m hy) T) (Dq2 m hx hy 1 q).
 Proof.
-  intros Hh B V. destruct (Ly2 (fd1 m hy) T ny nx (lenpres_fd K m hy) B Hny Hnx) as [B' A]. split; [exact B'|].
+  intros Hh B V. destruct (Ly2 K (fd1 m hy) T ny nx (lenpres_fd K m hy) B Hny Hnx) as [B' A]. split; [exact B'|].
   intros y x Iy Ix. destruct (inm_S2 _ _ _ Iy) as [Ia [Ib [Ic [H1 H2]]]].
   rewrite A by (eapply inm_lt2; eassumption).
   rewrite (diff_local K Kf Kc (pyy q) (pxy q * (zn x * hx) + my q) (pxx q * ((zn x * hx) * (zn x * hx)) + mx q * (zn x * hx) + p0 q)
